@@ -55,6 +55,11 @@ def scenarios(tier, seed):
         flagsets = [f for f in itertools.product((False, True), (0, 1, 2), (False, True), (False, True), (False, True))
                     if not (f[3] and (f[2] or f[4]))]
         maxcs = (1, 2, 3, 50)
+    # long sources (the event queue's own bookkeeping: a backlog of 70 / 130 / 200 events consumed without a pause)
+    for n in (70, 130, 200):
+        for maxc in (1, 50):
+            for ties in (False, True):
+                out.append(((tuple(float(1 + (k // 2 if ties else k)) for k in range(n)),), maxc, False, 0, False, False, False))
     for st in shapes:
         for maxc in maxcs:
             for sniff, derived, raiser, dup, pastjob in flagsets:
@@ -104,23 +109,30 @@ def make_run(sc, states=None):
                 if raises:
                     raise ValueError("handler fails")
             h.__name__ = hname
-            return h
+            if dup:
+                # an equal-but-not-identical callable on every access, like the bound method of a strategy object
+                class _Strategy:
+                    async def on_event(self, e):
+                        return await h(e)
+                holder = _Strategy()
+                return lambda: holder.on_event
+            return lambda: h
 
         for i, s in enumerate(srcs):
             for j in range(2):
                 h = mk(f"h{i}{j}", push_derived=(derived if (i == 0 and j == 0) else 0),
                        raises=(raiser and i == 0 and j == 1), sched_past=(pastjob and i == len(srcs) - 1 and j == 0))
-                d.subscribe(s, h)
+                d.subscribe(s, h())
                 if dup:
-                    d.subscribe(s, h)
-        d.subscribe(dsrc, mk("hD"))
+                    d.subscribe(s, h())
+        d.subscribe(dsrc, mk("hD")())
         if sniff:
             pre, post = mk("pre"), mk("post")
-            d.subscribe_all(pre, front_run=True)
-            d.subscribe_all(post)
+            d.subscribe_all(pre(), front_run=True)
+            d.subscribe_all(post())
             if dup:
-                d.subscribe_all(pre, front_run=True)
-                d.subscribe_all(post)
+                d.subscribe_all(pre(), front_run=True)
+                d.subscribe_all(post())
 
         def on_step(loop):
             if d.now_available:
@@ -202,7 +214,9 @@ def oracle(sc, r):
 def run_scenario(sc, tier):
     res = Result()
     bound = BOUNDS[tier]["deviation_bound"]
-    if sum(len(x) for x in sc[0]) >= 4:
+    if sum(len(x) for x in sc[0]) >= 50:
+        bound = 0  # long sources: the default schedule only
+    elif sum(len(x) for x in sc[0]) >= 4:
         bound = 1  # the larger timestamp patterns are explored at deviation bound 1 (stated in the evidence bounds)
     first = True
     for choices, tr, r in explore(make_run(sc, res.states), bound):
